@@ -187,12 +187,23 @@ class Ctx:
 
 
 # non-initial start states: prefixes of valid calls replayed on every fresh context
+# ('@aK' / '@nK' = id of the K-th attacker / node of the graph at that moment: the prefixes must not depend
+# on how the implementation numbers nodes and attackers)
 STARTS = {
-    'busy': [('attach',), ('compromise', 0, 3, 'attacker'), ('compromise', 1, 0, 'node'), ('analyse',),
-             ('add_node', None), ('remove_node', 1), ('add_attacker', None, (0,), (0, 2))],
-    'reloaded': [('attach',), ('compromise', 0, 4, 'attacker'), ('saveload', 'yml', True), ('add_node', None),
-                 ('remove_node', 2)],
+    'busy': [('attach',), ('compromise', '@a0', '@n3', 'attacker'), ('compromise', '@a1', '@n0', 'node'), ('analyse',),
+             ('add_node', None), ('remove_node', '@n1'), ('add_attacker', None, ('@n0',), ('@n0', '@n2'))],
+    'reloaded': [('attach',), ('compromise', '@a0', '@n4', 'attacker'), ('saveload', 'yml', True), ('add_node', None),
+                 ('remove_node', '@n2')],
 }
+
+
+def _resolve(c, x):
+    if isinstance(x, tuple):
+        return tuple(_resolve(c, y) for y in x)
+    if isinstance(x, str) and len(x) > 2 and x[0] == '@' and x[2:].isdigit():
+        seq = c.g.attackers if x[1] == 'a' else c.g.nodes
+        return seq[int(x[2:])].id
+    return x
 
 
 class GraphSystem(System):
@@ -226,7 +237,7 @@ class GraphSystem(System):
         c.last_outcome = None
         self._remember(c)
         for op in STARTS.get(self.cfg.get('start'), ()):
-            self.step(c, tuple(op), False)
+            self.step(c, _resolve(c, tuple(op)), False)
         return c
 
     def _remember(self, c):
